@@ -5,6 +5,8 @@ package lab
 import (
 	"github.com/saucelabs/forwarder/header"
 	"context"
+	"errors"
+	"sync/atomic"
 	"crypto/ecdsa"
 	"crypto/elliptic"
 	"crypto/rand"
@@ -189,6 +191,38 @@ type ProxyInst struct {
 	done     chan struct{} // closed when Run has returned
 	RunErr   error
 	stopOnce sync.Once
+	fence    *dialFence
+}
+
+// dialFence remembers the upstream connections of one proxy instance (the most recent few thousand).
+type dialFence struct {
+	stopped atomic.Bool
+	mu      sync.Mutex
+	conns   []net.Conn
+}
+
+func (f *dialFence) add(c net.Conn) bool {
+	f.mu.Lock()
+	defer f.mu.Unlock()
+	if f.stopped.Load() {
+		return false
+	}
+	if len(f.conns) >= 4096 {
+		f.conns = append(f.conns[:0], f.conns[2048:]...)
+	}
+	f.conns = append(f.conns, c)
+	return true
+}
+
+func (f *dialFence) closeAll() {
+	f.mu.Lock()
+	f.stopped.Store(true)
+	cs := f.conns
+	f.conns = nil
+	f.mu.Unlock()
+	for _, c := range cs {
+		c.Close()
+	}
 }
 
 func parseList(items []string) (*ruleset.RegexpMatcher, error) {
@@ -378,9 +412,19 @@ func StartProxy(o ProxyOpts) (*ProxyInst, error) {
 	if o.WrapDial != nil {
 		inner = o.WrapDial(inner)
 	}
+	// the fence: once Stop has begun this proxy opens no more upstream connections, and Stop closes those it has
+	// opened - a dial that net/http completes in the background must not show up at a peer during the next case
+	fence := &dialFence{}
 	tr.DialContext = func(ctx context.Context, network, addr string) (net.Conn, error) {
+		if fence.stopped.Load() {
+			return nil, errors.New("verif: proxy instance already stopped")
+		}
 		c, err := inner(ctx, network, addr)
 		dl.add(DialEvent{Network: network, Addr: addr, At: time.Now(), Err: err})
+		if err == nil && !fence.add(c) {
+			c.Close()
+			return nil, errors.New("verif: proxy instance already stopped")
+		}
 		return c, err
 	}
 
@@ -390,7 +434,7 @@ func StartProxy(o ProxyOpts) (*ProxyInst, error) {
 	}
 	addrs, _ := hp.Addr()
 	ctx, cancel := context.WithCancel(context.Background())
-	pi := &ProxyInst{HP: hp, Addr: addrs[0], Reg: reg, Dials: dl, Tr: tr, cancel: cancel, done: make(chan struct{})}
+	pi := &ProxyInst{HP: hp, Addr: addrs[0], Reg: reg, Dials: dl, Tr: tr, cancel: cancel, done: make(chan struct{}), fence: fence}
 	go func() { pi.RunErr = hp.Run(ctx); close(pi.done) }()
 	// Warm-up: martian initialises itself (and writes fields of the shared http.Transport) in the
 	// Serve goroutine. Connect once and wait until the listener's accept counter shows it: the
@@ -417,6 +461,9 @@ func (p *ProxyInst) Stop() {
 		case <-time.After(15 * time.Second):
 		}
 		p.Tr.CloseIdleConnections()
+		if p.fence != nil {
+			p.fence.closeAll()
+		}
 	})
 }
 
